@@ -107,12 +107,17 @@ type logCapture struct {
 	// slow aggregation is modelled: after the window was chosen and while
 	// the execution is in flight, which is all the property can see of it.
 	execLatencyMs int
+	// executions that were held for their aggregation latency (every recorded
+	// execution passed that log line, so this is never less than the number
+	// of history rows when execLatencyMs > 0; checked by the harness)
+	latencyApplied int
 }
 
 func (c *logCapture) aggregationLatency() {
 	if c.execLatencyMs <= 0 {
 		return
 	}
+	c.latencyApplied++
 	us := int64(c.execLatencyMs) * 1000
 	d := us/2 + simrt.Stream("exec-latency").Int63n(us+1)
 	simrt.Sleep(time.Duration(d) * time.Microsecond)
